@@ -91,6 +91,7 @@ PROPS = {
             {"run": "^TestC05$", "quick": 1, "thorough": 1, "rapid": False},
             {"run": "^TestC05Outs$", "quick": 6000, "thorough": 60000},
             {"run": "^TestC05SameName$", "quick": 1, "thorough": 1, "single": True, "rapid": False},
+            {"run": "^TestC05Recursive$", "quick": 1, "thorough": 1, "single": True, "rapid": False},
         ],
     },
     "C06": {
